@@ -79,6 +79,10 @@ type emitEval struct {
 	Effect func(call *ast.CallExpr, env evEnv)
 	// InnerLoop, when set, is asked about a loop statement; true means the hook accounted for it and the run goes on.
 	InnerLoop func(s ast.Stmt, env evEnv) bool
+	// TupleHook, when set, is asked first about the call of `a, b = f(..)`; ok=true: these are the results.
+	TupleHook func(call *ast.CallExpr, env evEnv) ([]evVal, bool)
+	// AssignHook, when set, is told about an assignment whose target is not a variable or field (an element `b[0] = v`).
+	AssignHook func(lhs ast.Expr, v evVal)
 }
 
 var emitEvalDecls = map[*packages.Package]map[*types.Func]*ast.FuncDecl{}
@@ -238,6 +242,10 @@ func (ev *emitEval) eval(e ast.Expr, env evEnv) evVal {
 		}
 		if a.K == evStr && b.K == evStr && (x.Op == token.EQL || x.Op == token.NEQ) {
 			return evVal{K: evBool, B: (a.S == b.S) == (x.Op == token.EQL)}
+		}
+		if (x.Op == token.EQL || x.Op == token.NEQ) && ((a.K == evNil && b.K == evStr) || (a.K == evStr && b.K == evNil)) {
+			// an error value held as its text ("" stands for nil)
+			return evVal{K: evBool, B: (a.S+b.S == "") == (x.Op == token.EQL)}
 		}
 		if a.K == evBool && b.K == evBool && (x.Op == token.EQL || x.Op == token.NEQ) {
 			return evVal{K: evBool, B: (a.B == b.B) == (x.Op == token.EQL)}
@@ -403,7 +411,18 @@ func (ev *emitEval) run(list []ast.Stmt, env evEnv) (rets []evVal, returned bool
 			if call, ok := x.X.(*ast.CallExpr); ok && ev.Effect != nil {
 				ev.Effect(call, env)
 			}
-		case *ast.EmptyStmt, *ast.IncDecStmt, *ast.DeferStmt, *ast.GoStmt:
+		case *ast.IncDecStmt:
+			if o := ev.obj(x.X); o != nil {
+				if v, ok := env[o]; ok && v.K == evInt {
+					if x.Tok == token.INC {
+						v.I++
+					} else {
+						v.I--
+					}
+					env[o] = v
+				}
+			}
+		case *ast.EmptyStmt, *ast.DeferStmt, *ast.GoStmt:
 		case *ast.DeclStmt:
 			if gd, ok := x.Decl.(*ast.GenDecl); ok && gd.Tok == token.VAR {
 				for _, sp := range gd.Specs {
@@ -436,7 +455,11 @@ func (ev *emitEval) run(list []ast.Stmt, env evEnv) (rets []evVal, returned bool
 				// tuple from a call into the package
 				var vals []evVal
 				if call, ok := ast.Unparen(x.Rhs[0]).(*ast.CallExpr); ok {
-					if fn := CalleeOf(ev.info, call); fn != nil && ev.decls[fn] != nil && ev.depth < 4 && ev.followable(fn) {
+					hooked := false
+					if ev.TupleHook != nil {
+						vals, hooked = ev.TupleHook(call, env)
+					}
+					if fn := CalleeOf(ev.info, call); !hooked && fn != nil && ev.decls[fn] != nil && ev.depth < 4 && ev.followable(fn) {
 						vals, _ = ev.follow(call, ev.decls[fn], env)
 					}
 				}
@@ -461,6 +484,8 @@ func (ev *emitEval) run(list []ast.Stmt, env evEnv) (rets []evVal, returned bool
 			for i, l := range x.Lhs {
 				if o := ev.obj(l); o != nil {
 					env[o] = vals[i]
+				} else if ev.AssignHook != nil {
+					ev.AssignHook(l, vals[i])
 				}
 			}
 		case *ast.BlockStmt:
